@@ -69,7 +69,8 @@ def run_port(rows, stream):
     returns (rows without the port rows, stats dict, problems)"""
     port = [r for r in rows if r.get("origin") == "port"]
     rest = [r for r in rows if r.get("origin") != "port"]
-    st = {"texts": 0, "evals": 0, "multi_layout": 0, "err_both": 0, "leaves": 0, "keeps": 0, "not_keeps": []}
+    st = {"texts": 0, "evals": 0, "multi_layout": 0, "err_both": 0, "leaves": 0, "keeps": 0, "not_keeps": [],
+          "strict": 0, "strict_and_covered": 0, "keeps_on_covered": 0, "not_strict": [], "thm_broken": []}
     if not port:
         return rest, st, []
     lines = "".join("F\t%s\t%s\t%s\t%s\n" % (r["hex"], r["classes"], r["widths"], ",".join(f"{o[0]}:{o[1]}" for o in r["outs"])) for r in port)
@@ -107,6 +108,18 @@ def run_port(rows, stream):
                 src = bytes.fromhex(r["hex"]).decode("utf-8", "replace") if r["hex"] != "-" else ""
                 st["not_keeps"].append({"id": r["id"], "src": src[:300], "first_node_outside_class": f[4] if len(f) > 4 else "",
                                         "content_equals_expected": (f[5] == "1") if len(f) > 5 else None})
+        if len(f) > 8:
+            # C14_parsed_trees_keep_all, instance by instance: error-free + strictTree => keepsAllOn covered
+            # (and => keepsAll when the tree has only covered node kinds); a text that is not strict has a lenient shape
+            strict, cov, keeps_on = f[6] == "1", f[7] == "1", f[8] == "1"
+            st["strict"] += strict
+            st["strict_and_covered"] += strict and cov
+            st["keeps_on_covered"] += keeps_on
+            src = bytes.fromhex(r["hex"]).decode("utf-8", "replace") if r["hex"] != "-" else ""
+            if not strict and len(st["not_strict"]) < 20:
+                st["not_strict"].append({"id": r["id"], "src": src[:300]})
+            if strict and (not keeps_on or (cov and f[3] != "1")):
+                st["thm_broken"].append({"id": r["id"], "src": src[:2000], "keepsAll": f[3], "strict": f[6], "covered": f[7], "keepsAllOn": f[8]})
     return rest, st, problems
 
 
@@ -158,7 +171,8 @@ def attribute(row, known_by_class):
 def main(ctx, args):
     ctx.assumptions += [
         "Model/CstPrint.lean is a literal port of every function of mimium-fmt/src/cst_print.rs (bodies pinned by hash, tools/cst_print.json; dispatch table re-extracted); tie = the text rendered by the Lean pipeline (ported tokenizer, preparse, grammar, printer, layout engine) equals the real pretty_print_cst output at every (width, indent) the harness uses, on every text of this run; display widths of non-ASCII tokens are taken from the crate",
-        "the three clauses (same AST, comments, fixed point) are still DECIDED by running the real formatter with the real parser as oracle; the theorems cover the content clause on the class keepsAll, evaluated by the driver on every parsed text",
+        "the three clauses (same AST, comments, fixed point) are still DECIDED by running the real formatter with the real parser as oracle; the theorems cover the content clause on the class keepsAll; that the trees of the ported parser are in the class is PROVED for all token lists and all node kinds (C14_parsed_trees_keep_all: no parser error + strictTree => keepsAll; shape invariant of Model/CstGrammar.lean) and, in addition, evaluated by the driver on every parsed text of the run (an instance that contradicts the theorem is a VIOLATION)",
+        "strictTree (Model/CstStrict.lean) excludes the shapes parse_cst accepts without an error although the printer has no slot for them (a comma that follows no parameter, an assignment as if-condition / then-branch / macro argument): open findings C14-stray-comma, C14-assign-in-if, C14-assign-in-macro-arg, whose witnesses are replayed first in every run",
         "Model/NewlineRule.lean is a hand port of the expression core of cst_parser.rs on token classes (atoms, infix/prefix operators, calls, field access, indexing, parens, tuples, arrays); tie = green-tree shapes compared on random token sequences with random line breaks in this run (error cases: only the error flag is compared)",
         "Model/Pretty.lean is a hand port of pretty-0.12.4 render.rs (best/fitting) restricted to Nil/Append/Group/FlatAlt/Nest/Hardline/text; tie = byte-exact comparison on random documents in this run",
         "usize arithmetic of the crate modelled on Nat (no overflow/saturation at 2^64)",
@@ -180,9 +194,13 @@ def main(ctx, args):
     nl_cases, nl_nontriv, nl_both_err, nl_problems = 0, set(), 0, []
     port_stats, port_problems, port_not_keeps = collections.Counter(), [], []
 
+    port_not_strict, port_thm_broken = [], []
+
     def take_port(rs, stream):
         rest, st, pr = run_port(rs, stream)
         port_not_keeps.extend(st.pop("not_keeps"))
+        port_not_strict.extend(st.pop("not_strict"))
+        port_thm_broken.extend(st.pop("thm_broken"))
         port_stats.update(st)
         port_problems.extend(pr)
         return rest
@@ -270,6 +288,8 @@ def main(ctx, args):
             else:
                 rows += res[1]
                 port_not_keeps.extend(res[2].pop("not_keeps"))
+                port_not_strict.extend(res[2].pop("not_strict"))
+                port_thm_broken.extend(res[2].pop("thm_broken"))
                 port_stats.update(res[2])
                 port_problems.extend(res[3])
     # ---- decide
@@ -383,6 +403,14 @@ def main(ctx, args):
             ctx.notes.append("positions listed in F14 where some comment was KEPT this run (class may be narrowed): " + ", ".join(kept))
         if unseen:
             ctx.notes.append("positions listed in F14 not exercised this run: " + ", ".join(unseen))
+    if port_thm_broken:
+        best = min(port_thm_broken, key=lambda d: len(d["src"]))
+        ctx.violation(f"the model contradicts C14_parsed_trees_keep_all on {len(port_thm_broken)} texts (smallest: {best['id']}): error-free, strictTree, "
+                      "but a covered node fails its ok test — the theorem is proved for all inputs, so the driver and the proved model have diverged",
+                      dict(best, cases=len(port_thm_broken)), found_input=False)
+    if port_not_strict and not args.replay:
+        ctx.notes.append("error-free texts with a lenient CST shape (strictTree = false; they belong to the findings C14-stray-comma / -assign-in-if / -assign-in-macro-arg): " +
+                         ", ".join(sorted(set(d["id"] for d in port_not_strict))[:12]))
     if port_not_keeps and not args.replay:
         ctx.notes.append("texts outside the class keepsAll (the model predicts dropped content; all must belong to a known finding class): " +
                          ", ".join(sorted(set(d["id"] for d in port_not_keeps))[:12]))
@@ -404,6 +432,9 @@ def main(ctx, args):
                          "texts_with_two_layouts": port_stats["multi_layout"], "both_report_syntax_error": port_stats["err_both"],
                          "disagreements": len(port_dis), "text_leaves_printed(model)": port_stats["leaves"],
                          "texts_in_class_keepsAll": port_stats["keeps"], "texts_outside_keepsAll(sample)": port_not_keeps[:5],
+                         "texts_strictTree": port_stats["strict"], "texts_strictTree_and_only_covered_kinds": port_stats["strict_and_covered"],
+                         "texts_keepsAllOn_covered": port_stats["keeps_on_covered"], "texts_not_strict(sample)": port_not_strict[:6],
+                         "instances_contradicting_C14_parsed_trees_keep_all": len(port_thm_broken),
                          "comparison": "FNV-1a of the whole output text, every (width, indent) the harness formats the text at"},
         "parser_cases": nl_cases, "parser_cases_nontrivial": len(nl_nontriv), "parser_cases_both_report_errors": nl_both_err,
         "impl_property_failures": stats["texts_failing"],
